@@ -235,12 +235,7 @@ theorem potential_tick {s s' : St} (hi : TInv s) (h : step s .tick = some s') (h
     (hread : ∀ k, k < s.hs.length → (s.host k).ph = .reading → (s.host k).intr = false →
       s.now < (s.host k).conn + readB s.cfg (s.script k)) : potential s' + 1 ≤ potential s := by
   obtain ⟨hq, he⟩ := step_tick_facts h
-  have hlt : s.now < s.wake := by
-    have := quiescent_none hq (mem_cands_scan s)
-    simp only [dstep] at this
-    split at this
-    · simp at this
-    · omega
+  have hlt : s.now < s.wake := tick_lt_wake h
   obtain ⟨k, hk, hint, hph⟩ := waiting_for hi hq hf hnf
   have hho := hi.hosts k hk
   have : potential s' < potential s := by
@@ -334,12 +329,7 @@ theorem time_bounded {v f c scripts} {ls : List Label} {s : St} (he : Exec (init
       have hread : ∀ k, k < s1.hs.length → (s1.host k).ph = .reading → (s1.host k).intr = false →
           s1.now < (s1.host k).conn + readB s1.cfg (s1.script k) := by
         intro k hk hph hint
-        have hlt : s1.now < s1.wake := by
-          have := quiescent_none hq (mem_cands_scan s1)
-          simp only [dstep] at this
-          split at this
-          · simp at this
-          · omega
+        have hlt : s1.now < s1.wake := tick_lt_wake hs
         by_cases hu : 0 < s1.cfg.ut
         · have := (hti.hosts k hk).readDl hph hint hu
           simp only [readB, hu, if_true]; omega
